@@ -10,6 +10,7 @@
 // For translator validation the calls are evaluated with the REAL function at double / float.
 #include <math.h>
 #include "sym.h"
+#include "c10frac.h" // FracS: the real templates at exact fractions (rattv), before any Imath header
 #include "shapes.h"
 #include "main.h"
 #include <ImathMatrixAlgo.h>
